@@ -1,5 +1,7 @@
 package tengo
 
+import "math"
+
 var builtinFuncs = []*BuiltinFunction{
 	{
 		Name:  "len",
@@ -389,12 +391,18 @@ func buildRange(start, stop, step int64) *Array {
 			array.Value = append(array.Value, &Int{
 				Value: i,
 			})
+			if i > math.MaxInt64-step {
+				break // the next element would wrap around
+			}
 		}
 	} else {
 		for i := start; i > stop; i -= step {
 			array.Value = append(array.Value, &Int{
 				Value: i,
 			})
+			if i < math.MinInt64+step {
+				break // the next element would wrap around
+			}
 		}
 	}
 	return array
